@@ -357,3 +357,18 @@ PROPERTIES["C09"] = {
     "prepare": _gen_prepare,
     "runs": _c09_runs,
 }
+
+
+PROPERTIES["C12"] = {
+    "level_text": "Bounded symbolic execution + SMT of jennies/jsonschema.Schema.GenerateSchema (objectToDefinition, formatType/Scalar/Struct/Ref/Enum/Array/Map/Disjunction, constraint "
+                  "helpers, reference formatter) on a symbolic context (2 packages, cross-package references, same-named objects in both). The assembled document is inspected: every "
+                  "$ref resolves inside the document; every object is a definition under its own name and describes that object; every field a property under its own name; `required`, "
+                  "constraints, constants, enum values and defaults are carried over with the values (and dynamic types) the IR holds.",
+    "level_note": "Bounds: main object T(1) over {scalar string/int64/any with default/constraint, constant, ref, enum, array, map, struct<=2, union of 2}, 3 objects. Outside the claim: acceptance "
+                  "by independent loaders and by cog's own parsers (library schema compilers are not encodable), json.MarshalIndent of the ordered maps, the OpenAPI jenny, and validation of "
+                  "encoded Go values against the emitted schema (part iv of the design; not built).",
+    "bounds": {"context": "2 packages, 3 objects, main object T(1)", "leaves": "Required, defaults (string/int64), constraints (>=, <, minLength), scalar kind, names symbolic"},
+    "runs": [Run("jsonschema_jenny", ["./internal/jennies/jsonschema"], _h(("internal/jennies/jsonschema/zz_verif_c12.go", "harness/jjsonschema/zz_verif_c12.go")),
+                 ["VerifC12GenerateSchema"], "internal/jennies/jsonschema", test_pkg_name="jsonschema", needs_leaf=True,
+                 allow_unreached=["C12: a property is not a schema object", "C12: an array has no items schema", "C12: a map has no additionalProperties schema"])],
+}
